@@ -10,6 +10,7 @@ import (
 	"path/filepath"
 	"sort"
 	"strings"
+	"sync"
 	"sync/atomic"
 	"time"
 
@@ -37,7 +38,35 @@ type c12Case struct {
 	Junk     []byte `json:"junk"`     // bytes for plain_random
 }
 
-var c12Creds = []string{"plain_proto", "plain_random", "tls_nocert", "tls_selfsigned", "tls_samename"}
+var c12Creds = []string{"plain_proto", "plain_random", "tls_nocert", "tls_selfsigned", "tls_samename", "tls_sysroot"}
+
+// A certificate that the machine's trust store vouches for is still "any other certificate": the
+// harness publishes its own root as the only system root (SSL_CERT_FILE / SSL_CERT_DIR, for this
+// process and for the plugins it starts) and lets the intruder present it.
+var (
+	c12SysOnce sync.Once
+	c12SysCert tls.Certificate
+	c12SysEnv  []string
+)
+
+func c12Sysroot() (tls.Certificate, []string) {
+	c12SysOnce.Do(func() {
+		certPEM, keyPEM, err := genCertPEM("localhost")
+		if err != nil {
+			panic(err)
+		}
+		dir := scratchDir()
+		file := filepath.Join(dir, "sysroot.pem")
+		empty := filepath.Join(dir, "no-cert-dir")
+		os.MkdirAll(empty, 0o755)
+		os.WriteFile(file, certPEM, 0o644)
+		c12SysCert, _ = tls.X509KeyPair(certPEM, keyPEM)
+		c12SysEnv = []string{"SSL_CERT_FILE=" + file, "SSL_CERT_DIR=" + empty}
+		os.Setenv("SSL_CERT_FILE", file)
+		os.Setenv("SSL_CERT_DIR", empty)
+	})
+	return c12SysCert, c12SysEnv
+}
 
 func c12Gen(t *rapid.T) any {
 	c := &c12Case{}
@@ -93,6 +122,12 @@ func (c *c12Case) intruderTLS() *tls.Config {
 		certPEM, keyPEM, _ := genCertPEM("localhost")
 		pair, _ := tls.X509KeyPair(certPEM, keyPEM)
 		cfg.Certificates = []tls.Certificate{pair}
+	case "tls_sysroot":
+		// a certificate trusted by the system store of both processes
+		pair, _ := c12Sysroot()
+		cfg.Certificates = []tls.Certificate{pair}
+		// present it whatever acceptable-CA list the server sends
+		cfg.GetClientCertificate = func(*tls.CertificateRequestInfo) (*tls.Certificate, error) { return &pair, nil }
 	}
 	return cfg
 }
@@ -237,6 +272,7 @@ func c12Run(ci any) (out Outcome) {
 	out.label("proto:%s", c.Proto)
 	out.label("path:%s", c.Path)
 	out.label("cred:%s", c.Cred)
+	_, sysEnv := c12Sysroot() // before anything in this process loads the system roots
 	caseDir := filepath.Join(scratchDir(), fmt.Sprintf("c12-%d", atomic.AddInt64(&c12Seq, 1)))
 	os.MkdirAll(caseDir, 0o755)
 	defer os.RemoveAll(caseDir)
@@ -288,7 +324,7 @@ func c12Run(ci any) (out Outcome) {
 	}
 
 	cc.Cmd = pluginCmd(PluginSpec{LegacyVersion: 1, Legacy: &set, GRPCServer: c.Proto != "netrpc"})
-	cc.Cmd.Env = []string{"TMPDIR=" + caseDir}
+	cc.Cmd.Env = append([]string{"TMPDIR=" + caseDir}, sysEnv...)
 	cl := plugin.NewClient(cc)
 	defer killBounded(cl, 20*time.Second)
 	h, cp, err := dispense(cl, "p")
